@@ -6,6 +6,7 @@ import Driver.Send
 import Driver.Client
 import Driver.Hist
 import Driver.Editions
+import Driver.Mem
 /-
   udsdrv: one request per line on stdin, one answer per line on stdout.  Imports Model and Spec only.
 -/
@@ -19,6 +20,7 @@ def dispatch (cmd : String) (a : Args) : Except String String :=
   else if cmd == "deliver" || cmd == "sendd" then Drv.Client.run cmd a
   else if cmd == "hist" then Drv.Hist.run cmd a
   else if cmd.startsWith "ed." then Drv.Editions.run cmd a
+  else if cmd.startsWith "ml." then Drv.Mem.run cmd a
   else throw s!"unknown command {cmd}"
 
 partial def loop (hin hout : IO.FS.Stream) : IO Unit := do
